@@ -42,8 +42,10 @@ SeqMatch(rec, exp, M(_, _)) == Len(rec) = Len(exp) /\ \A j \in 1..Len(rec) : M(r
 
 RecordedCall(c) == IF c.e = "item" THEN Item(c.x) ELSE Err(IF c.is = <<>> THEN "?" ELSE c.is[1])
 
-Props == /\ PagingLossless /\ PrefixDelivered /\ OnlyListed /\ NoDuplicates /\ Ascending
-         /\ StrictlyAfterStart /\ ErrorOnlyWithCause /\ DeclinedAtK /\ BoundedRequests
+\* the properties of OciList on recorded values
+Props(c, cs, nr, s) ==
+  /\ LosslessOf(c, cs, s) /\ PrefixOf(c, cs, s) /\ OnlyListedOf(c, cs) /\ NoDuplicatesOf(cs) /\ AscendingOf(cs)
+  /\ AfterStartOf(c, cs) /\ ErrorCauseOf(c, cs, s) /\ DeclinedAtKOf(c, cs, s) /\ BoundedOf(c, nr, s)
 
 IsEvent(op) == l <= Len(Trace) /\ Trace[l].op = op
 
@@ -56,15 +58,15 @@ TraceList ==
          s == Stream(c.node, c.a, c.kind)
          o == Observed(s, c.k)
          rc == [j \in 1..Len(e.calls) |-> RecordedCall(e.calls[j])]
+         fin == IF rc # <<>> /\ rc[Len(rc)].e = "err" THEN "failed"
+                ELSE IF c.k > 0 /\ Len(rc) = c.k THEN "declined" ELSE "done"
      IN /\ e.after = 0                 \* no call after a decline or after an error
         /\ ~e.runaway
         /\ SeqMatch(e.reqs, Reqs(o), ReqMatch)
         /\ SeqMatch(e.calls, Yields(o), CallMatch)
         \* the properties, evaluated on what the real iterator delivered
-        /\ cfg' = c /\ stream' = s /\ i' = Len(o) /\ calls' = rc /\ nreq' = Len(e.reqs)
-        /\ st' = IF rc # <<>> /\ rc[Len(rc)].e = "err" THEN "failed"
-                 ELSE IF c.k > 0 /\ Len(rc) = c.k THEN "declined" ELSE "done"
-        /\ Props'
+        /\ Props(c, rc, Len(e.reqs), fin)
+        /\ cfg' = c /\ stream' = s /\ i' = Len(o) /\ calls' = rc /\ nreq' = Len(e.reqs) /\ st' = fin
   /\ l' = l + 1
 
 TInit == /\ l = 2
